@@ -244,13 +244,23 @@ def run(db, rep):
         # that name at least as often, and the other way round (tabled exceptions: members filled by other means)
         if not bad:
             import collections
-            rc_ = collections.Counter(member_name(r[2]) for r in rt if r[1] == "read" and member_name(r[2]))
-            wc_ = collections.Counter(member_name(x[2]) for x in wt if x[1] == "write" and member_name(x[2]))
+            rc_ = together([r for r in rt if r[1] == "read" and member_name(r[2])])
+            wc_ = together([x for x in wt if x[1] == "write" and member_name(x[2])])
             for nm_, cnt in sorted(rc_.items()):
                 if wc_.get(nm_, 0) < cnt:
                     bad = ("`%s` is read %d time(s) by the constructor chain but written %d time(s) by write_serialization: what was parsed "
                            "into it does not reach the wire again" % (nm_, cnt, wc_.get(nm_, 0)))
                     break
+            if not bad:
+                # a fixed-size member the constructor reads in EVERY run is written in every run (a write that sits in one
+                # branch only leaves the other runs without it)
+                rmin = together([r for r in rt if r[1] == "read" and member_name(r[2]) and not has_atoms(r[3])], least=True)
+                wmin = together([x for x in wt if x[1] == "write" and member_name(x[2])], least=True)
+                for nm_, cnt in sorted(rmin.items()):
+                    if cnt >= 1 and nm_ in wmin and wmin[nm_] == 0:
+                        bad = ("`%s` is read by the constructor chain in every run but write_serialization writes it only under a "
+                               "condition: when the condition fails what was parsed does not reach the wire" % nm_)
+                        break
             if not bad:
                 for nm_, cnt in sorted(wc_.items()):
                     if rc_.get(nm_, 0) < cnt and (short, nm_) not in WRITE_ONLY_OK:
@@ -262,6 +272,28 @@ def run(db, rep):
             rep.violation("R3-sequence", key, facts.loc(fs[0]), "%s: %s" % (short, bad))
         else:
             rep.ok("R3-sequence", key, facts.loc(fs[0]), "%d leading item(s) agree: %s" % (n_cmp, [member_name(r[2]) or "?" for r in rt[:n_cmp]]))
+
+
+def together(toks, least=False):
+    """per member name: how many of its tokens can be executed in ONE run - tokens in branches that exclude each other (the
+    same condition with opposite polarity) are alternatives, not repetitions.  `least`: the fewest executed in any run."""
+    import itertools
+    by = {}
+    for t in toks:
+        by.setdefault(member_name(t[2]), []).append(t[8] if len(t) > 8 and t[8] else [])
+    out = {}
+    for nm, gs in by.items():
+        keys = sorted(set(c.key for g in gs for c, _ in g))
+        if not keys or len(keys) > 8:
+            out[nm] = len(gs) if not least else sum(1 for g in gs if not g)
+            continue
+        best = None
+        for vals in itertools.product((True, False), repeat=len(keys)):
+            a = dict(zip(keys, vals))
+            k = sum(1 for g in gs if all(a[c.key] == bool(p) for c, p in g))
+            best = k if best is None else (min(best, k) if least else max(best, k))
+        out[nm] = best
+    return out
 
 
 WRITE_ONLY_OK = {
